@@ -76,10 +76,12 @@ def build_classes(kinds, se, deps=()):
     classes = []  # the sortable class of each node
     hybrids = {}
     _declared.clear()
+    _hyb.clear()
     for i, k in enumerate(kinds):
         name = "N%d" % i
         if k in ("S", "H"):
-            fields = {"x": xo.Int64}
+            # several distinct leaf types (they are nodes of the dependency graph too, without an API of their own)
+            fields = {"x": xo.Int64, "y": xo.Float64, "z": xo.Int8, "w": xo.UInt16}
             for j, how in se[i]:
                 tgt = classes[j]
                 fields["f%d" % j] = tgt if how == "val" else xo.Ref[tgt]
@@ -100,16 +102,20 @@ def build_classes(kinds, se, deps=()):
         elif k == "U":
             c = type(name, (xo.UnionRef,), dict(_reftypes=[classes[j] for j, _ in se[i]], _depends_on=[]))
         classes.append(c)
+    _hyb.update(hybrids)
     return classes
 
 
 _declared = set()
+_hyb = {}
 
 
 def apply_deps(classes, deps):
     for i, j in deps:
         if (i, j) not in _declared:
-            classes[i]._depends_on.append(classes[j])
+            # a plain struct / union names a hybrid class as such (class N1(xo.HybridClass)), not its _XoStruct
+            dep = _hyb[j] if (j in _hyb and not hasattr(classes[i], "_DressingClass")) else classes[j]
+            classes[i]._depends_on.append(dep)
 
 
 def model(kinds, se, deps, classes):
